@@ -292,6 +292,26 @@ pub fn run_disturbance(name: &str) {
 
 use crate::engine::{PResult, Run};
 
+/// counts of the exact-count children: both sides of 2^8 and 2^16
+pub const EXACT_COUNTS: [usize; 6] = [255, 256, 257, 65_535, 65_536, 65_537];
+
+/// spread of starting items for the single-threaded children: ends, middle, and around every power of
+/// two; short lists: every item
+pub fn cold_starts(len: usize) -> Vec<usize> {
+    let mut starts: Vec<usize> = vec![0, len - 1, len / 2, 1, len / 3, 2 * len / 3];
+    let mut p = 2usize;
+    while p < len {
+        starts.extend([p, p + 1, p - 1]);
+        p *= 2;
+    }
+    starts.retain(|x| *x < len);
+    if len <= 72 {
+        // short lists: every item gets its turn as the first call
+        starts = (0..len).collect();
+    }
+    starts
+}
+
 /// Property-level wrapper of `after_disturbances`: records the generator and reports a failure as
 /// `<ID>.after_disturbance` with a replayable case {disturbance, clause, case}. Afterwards the same
 /// items are checked from 8 threads at once (each thread walks the items from its own offset and
@@ -305,6 +325,58 @@ pub fn disturbance_pass<T: Sync>(
 ) -> PResult {
     let concurrent_only = matches!(run.cold, Some(c) if c >= 2000);
     if let Some(code) = run.cold {
+        if code >= 5000 {
+            // exact-count child (first stress pass only, one thread): one item is checked exactly c times as
+            // the first thing this process ever does, then every *other* item once, nearest first
+            if run.pass_counter != 0 {
+                run.pass_counter += 1;
+                return Ok(());
+            }
+            let len = items.len();
+            let starts = cold_starts(len);
+            let j = code - 5000;
+            let c = EXACT_COUNTS[j % 6];
+            let x = starts[(j / 6) % starts.len()];
+            let mut fail: Option<(usize, String)> = None;
+            for n in 0..c {
+                match guard(|| check(&items[x])) {
+                    Ok(Ok(())) => {}
+                    Ok(Err(m)) => {
+                        fail = Some((x, format!("use number {} of the item itself: {}", n + 1, m)));
+                        break;
+                    }
+                    Err(p) => {
+                        fail = Some((x, format!("use number {} of the item itself panicked: {}", n + 1, p)));
+                        break;
+                    }
+                }
+            }
+            if fail.is_none() {
+                let order = (1..len).flat_map(|d| [x.checked_add(d).filter(|i| *i < len), x.checked_sub(d)]).flatten().take(4000);
+                for i in order {
+                    match guard(|| check(&items[i])) {
+                        Ok(Ok(())) => {}
+                        Ok(Err(m)) => {
+                            fail = Some((i, m));
+                            break;
+                        }
+                        Err(p) => {
+                            fail = Some((i, format!("panicked: {}", p)));
+                            break;
+                        }
+                    }
+                }
+            }
+            match fail {
+                None => println!("COLDRESULT ok {}", c + len.min(4001) - 1),
+                Some((i, m)) => {
+                    let (clause, case, sig) = to_case(&items[i]);
+                    let (_, rep_case, rep_sig) = to_case(&items[x]);
+                    println!("COLDRESULT fail {}", serde_json::to_string(&json!({"cold_code": code, "profile": crate::engine::profile(), "clause": clause, "case": case, "sig": format!("{} x {} ; {}", rep_sig, c, sig), "repeat": rep_case, "times": c, "message": format!("single-threaded, fresh process, {} checked exactly {} times in a row first: {}", rep_sig, c, m)})).unwrap());
+                }
+            }
+            std::process::exit(0);
+        }
         if code >= 2000 {
             // replay of an `<ID>.concurrent` case: only the concurrent phase of stress pass (code - 2000)
             if run.pass_counter != code - 2000 {
@@ -320,18 +392,7 @@ pub fn disturbance_pass<T: Sync>(
             }
             let len = items.len();
             let r = code - 1000;
-            // spread of starting items: ends, middle, and around every power of two
-            let mut starts: Vec<usize> = vec![0, len - 1, len / 2, 1, len / 3, 2 * len / 3];
-            let mut p = 2usize;
-            while p < len {
-                starts.extend([p, p + 1, p - 1]);
-                p *= 2;
-            }
-            starts.retain(|x| *x < len);
-            if len <= 72 {
-                // short lists: every item gets its turn as the first call
-                starts = (0..len).collect();
-            }
+            let starts = cold_starts(len);
             let start = starts[r % starts.len()];
             let descending_first = r >= starts.len();
             let order: Vec<usize> = if descending_first { (0..len).rev().chain(0..len).collect() } else { (0..len).chain((0..len).rev()).collect() };
@@ -431,6 +492,18 @@ pub fn disturbance_pass<T: Sync>(
     }
     // stress passes are numbered (for replays of concurrent cases)
     let this_pass = if run.cold.is_some() { run.pass_counter } else { run.pass_counter += 1; run.pass_counter - 1 };
+    if run.cold.is_none() && this_pass == 0 {
+        // exact-count histories need processes in which nothing has been asked before
+        let codes: Vec<usize> = (0..EXACT_COUNTS.len() * cold_starts(items.len()).len()).map(|j| 5000 + j).collect();
+        let (ran, calls, bad) = run.fresh_children(&codes, true);
+        run.generator("exact-count histories, a fresh single-threaded process each: one item checked exactly 2^8-1 .. 2^8+1 / 2^16-1 .. 2^16+1 times, then every other item", "call-count soak", None, calls, 0, &format!("{} of {} child processes reported; repeated items: ends, middle and around every power of two of the item list (every item of a short list)", ran, codes.len()));
+        if let Some((_, v)) = bad {
+            let id = run.id.clone();
+            let sig = v["sig"].as_str().unwrap_or("").to_string();
+            let msg = v["message"].as_str().unwrap_or("").to_string();
+            return run.violation(&format!("{}.after_repetition", id), &sig, json!({"cold_code": v["cold_code"], "profile": v["profile"], "clause": v["clause"], "case": v["case"], "repeat": v["repeat"], "times": v["times"]}), &msg);
+        }
+    }
     if !concurrent_only {
     let menu_len = disturbance_menu().len() as u64;
     let n = items.len() as u64 * menu_len;
@@ -619,7 +692,7 @@ pub fn replay_after_disturbance(case: &Value, check_case: fn(&str, &Value) -> Re
         let prof = case["profile"].as_str().unwrap_or("checked");
         let root = crate::engine::verif_root();
         let bin = crate::engine::twin_binary(&root, prof);
-        let tries = if (1000..2000).contains(&code) { 1 } else { 12 };
+        let tries = if (1000..2000).contains(&code) || code >= 5000 { 1 } else { 12 };
         for _ in 0..tries {
             let out = std::process::Command::new(&bin).arg(&id).arg("--cold").arg(format!("{}", code)).env("VERIF_ROOT", &root).stderr(std::process::Stdio::null()).output().map_err(|e| format!("cannot run {}: {}", bin.display(), e))?;
             let text = String::from_utf8_lossy(&out.stdout).to_string();
